@@ -43,11 +43,12 @@ theorem message_is_datagram (c : Client) (d : Bytes) (h : Nat) (id : TID) (raw :
 theorem unknown_to_fallback_only (c : Client) (id : TID) (e : CEv) (hl : c.lookup id = none) :
     c.callback id e = (c, if c.closed = false ∧ c.hasFallback = true ∧ e ≠ .stopped then [.fallback id e] else []) := by
   unfold Client.callback
+  rw [hl]
+  simp only
   by_cases hc : c.closed = true
   · simp [hc]
   · have hcf : c.closed = false := by simpa using hc
-    rw [if_neg hc, hl]
-    simp only [hcf, true_and]
+    simp only [hcf, Bool.not_false, Bool.true_and, true_and]
     by_cases hfb : c.hasFallback = true <;> by_cases he : e = .stopped <;> simp [hfb, he]
 
 theorem garbage_is_noop (c : Client) (d : Bytes) (h : (readerMsg.readFrom d).2 ≠ .ok ()) : c.deliver d = (c, []) := by
